@@ -379,7 +379,7 @@ impl<'a> Sim<'a> {
             2 => ("announce-inventory", Command::AnnounceInventory),
             3 => {
                 // operator contract (rad init / seed / publish): only public repositories are added to the inventory
-                if self.repos[rix].private {
+                if self.repos[rix].private || self.nodes[node].storage.repos.get(&rid).map(|r| r.doc.doc.is_private()).unwrap_or(false) {
                     return;
                 }
                 let (tx, _rx) = chan::unbounded();
@@ -513,7 +513,22 @@ impl<'a> Sim<'a> {
                         t.done = true;
                     }
                 }
-                // the storage the next process sees is what was on disk
+                // the storage the next process sees is what was on disk; sometimes the operator used the
+                // downtime to make a public repository private (`rad id update --visibility private`)
+                if self.ch.pick(3) == 0 {
+                    let mut publics: Vec<RepoId> = self.nodes[i].storage.repos.iter().filter(|(_, r)| r.doc.doc.is_public()).map(|(k, _)| *k).collect();
+                    publics.sort();
+                    if !publics.is_empty() {
+                        let rid = publics[self.ch.pick_usize(publics.len())];
+                        let repo = self.nodes[i].storage.repos.get_mut(&rid).unwrap();
+                        if let Ok(doc) = repo.doc.doc.clone().with_edits(|raw| raw.visibility = radicle::identity::Visibility::private([])) {
+                            repo.doc.doc = doc;
+                            self.res.hit("fault.node.repository_made_private_while_down");
+                            let name = self.rname(&rid);
+                            self.res.trace.log("fault-visibility", format!("t={} FAULT n{i}: {name} is made private while the node is down", self.now - T0));
+                        }
+                    }
+                }
                 let d = 1 + self.ch.range(0, 120_000);
                 self.schedule(d, Ev::Start { node: i });
             }
